@@ -7,6 +7,7 @@ package crashkit10
 
 import (
 	"crypto/sha256"
+	"crypto/sha512"
 	"encoding/hex"
 	"encoding/json"
 	"fmt"
@@ -20,7 +21,8 @@ const ChunkSize = 1 << 20
 
 // Blob is one element of the content universe of a script.
 type Blob struct {
-	ID        int    `json:"id"`   // model name, >= 1
+	ID        int    `json:"id"`   // model name, >= 1; sha512 blobs have ids 1000..1999 (model: algorithm = id / 1000)
+	Alg       string `json:"alg,omitempty"` // "" = sha256, "sha512"
 	Kind      string `json:"kind"` // "raw" | "manifest"
 	Size      int    `json:"size"` // raw: number of bytes
 	Fill      uint64 `json:"fill"` // raw: PRNG seed of the bytes
@@ -57,10 +59,20 @@ func (b Blob) BadContent() []byte {
 }
 
 func (b Blob) Hex() string {
+	if b.Alg == "sha512" {
+		h := sha512.Sum512(b.Content())
+		return hex.EncodeToString(h[:])
+	}
 	h := sha256.Sum256(b.Content())
 	return hex.EncodeToString(h[:])
 }
-func (b Blob) Digest() string   { return "sha256:" + b.Hex() }
+func (b Blob) AlgName() string {
+	if b.Alg == "" {
+		return "sha256"
+	}
+	return b.Alg
+}
+func (b Blob) Digest() string   { return b.AlgName() + ":" + b.Hex() }
 func (b Blob) IsManifest() bool { return b.Kind == "manifest" }
 
 // Op is one store operation.
@@ -71,6 +83,10 @@ func (b Blob) IsManifest() bool { return b.Kind == "manifest" }
 //	untag    ref             Untag(ref)
 //	delete   blob            Delete(desc(blob))      (AutoGC off: plain delete)
 //	saveindex                SaveIndex()
+//	gc                       GC()
+//	reopen                   oci.New on the same directory (a second store object)
+//
+// With Script.AutoGC the store runs with AutoGC on: delete is then a cascade.
 type Op struct {
 	Kind string `json:"kind"`
 	Blob int    `json:"blob,omitempty"`
@@ -100,11 +116,16 @@ type Segment struct {
 	Final   Op   `json:"final"`
 	K       int  `json:"k"`
 	J       int  `json:"j,omitempty"`
+	// filled in by the harness when the segment is executed: the operations in
+	// the model runner's syntax (a cascade / a sweep lists what it unlinked)
+	Enc      []string `json:"-"`
+	FinalEnc string   `json:"-"`
 }
 
 // Script = universe + earlier crashed runs + history of completed operations of
 // the last process + the operation it is interrupted in.
 type Script struct {
+	AutoGC  bool      `json:"auto_gc,omitempty"`
 	Blobs   []Blob    `json:"blobs"`
 	Pre     []Segment `json:"pre,omitempty"`
 	History []Op      `json:"history"`
